@@ -180,6 +180,9 @@ func mergeX(s, d *TSpec, opt string, prior, v Val, cfg Cfg, plain bool) Val {
 		}
 		return Val{M: out}
 	}
+	if su.Kind == KUnsup {
+		return clone(prior)
+	}
 	panic("mergeX: kind " + string(su.Kind))
 }
 
